@@ -106,6 +106,67 @@ def run(ctx):
                     ctx.counters["samples_taken"] += 1
                     ctx.sample("mutation:" + config, {"document": text[:300], "top_level_keys": top_keys,
                                                       "distinct_completion_orders": len(seen)})
+    if ctx.shard == 0:
+        wide_mutation_probe(ctx)
     ctx.require("mutations", 5)
     ctx.require("distinct_schedules:threadpool", 10)
     ctx.require("distinct_schedules:asyncio-mixed", 10)
+
+
+def wide_mutation_probe(ctx, n=400):
+    """Named probe: the statement speaks of 1..n top-level fields. A mutation with 400 of them (wide, not deep) is
+    executed under every runtime with synchronous and with deferred resolvers; the call order must be the
+    document order and a result must come back."""
+    import asyncio
+
+    import py_gql
+    from py_gql.execution import Executor
+    from py_gql.execution.runtime import AsyncIORuntime, ThreadPoolRuntime
+
+    calls = []
+    schema = py_gql.build_schema("type Query { a: Int } type Mutation { step(i: Int!): Int later(i: Int!): Int }")
+
+    def step(root, ctx_, info, i):
+        calls.append(i)
+        return i
+
+    async def later(root, ctx_, info, i):
+        await asyncio.sleep(0)
+        calls.append(i)
+        return i
+
+    schema.register_resolver("Mutation", "step", step)
+    for config in ("blocking", "generic", "threadpool", "asyncio-sync", "asyncio-coroutines"):
+        field = "later" if config == "asyncio-coroutines" else "step"
+        if field == "later":
+            schema.register_resolver("Mutation", "later", later)
+        text = "mutation { %s }" % " ".join("a%d: %s(i: %d)" % (i, field, i) for i in range(n))
+        del calls[:]
+        witness = {"document": text[:200] + " ...", "top_level_fields": n, "config": config}
+        ctx.evaluated()
+        ctx.count("wide_mutation_probes")
+        try:
+            if config == "blocking":
+                res = py_gql.graphql_blocking(schema, text)
+            elif config == "generic":
+                res = py_gql.process_graphql_query(schema, text, executor_cls=Executor)
+            elif config == "threadpool":
+                rt = ThreadPoolRuntime(max_workers=4)
+                try:
+                    res = py_gql.process_graphql_query(schema, text, executor_cls=Executor, runtime=rt).result(timeout=120)
+                finally:
+                    rt._inner.shutdown(wait=True)
+            else:
+                loop = asyncio.new_event_loop()
+                try:
+                    res = loop.run_until_complete(asyncio.wait_for(
+                        py_gql.process_graphql_query(schema, text, executor_cls=Executor, runtime=AsyncIORuntime(loop=loop)), 120))
+                finally:
+                    loop.close()
+        except (Exception, RecursionError) as e:
+            ctx.violation("wide-mutation:%s:%s" % (config, type(e).__name__), witness, repr(e)[:200])
+            continue
+        if res.errors or list((res.data or {}).values()) != list(range(n)):
+            ctx.violation("wide-mutation:%s:wrong-result" % config, witness, repr(res.errors)[:200])
+        elif calls != list(range(n)):
+            ctx.violation("wide-mutation:%s:call-order" % config, witness, repr(calls[:10]))
